@@ -60,20 +60,3 @@ func (v *VerifNode) OversizeCounters() (sent, failed, dropped float64) {
 	}
 	return
 }
-
-// VerifPeerOf returns the Peer behind a memberlist configuration built by Create (the delegate embeds it),
-// so that a mesh harness can shut memberlist down at tear-down: the application only ever calls Leave,
-// which keeps memberlist's goroutines alive, and a synctest bubble cannot end while they exist.
-func VerifPeerOf(cfg *memberlist.Config) *Peer {
-	if d, ok := cfg.Delegate.(*delegate); ok {
-		return d.Peer
-	}
-	return nil
-}
-
-// VerifShutdown stops memberlist's background goroutines.
-func (p *Peer) VerifShutdown() {
-	if p != nil && p.mlist != nil {
-		_ = p.mlist.Shutdown()
-	}
-}
